@@ -370,7 +370,7 @@ theorem parseSpec_loop (fenv : FEnv) : ∀ (spec : Spec) (x : Inst) (force : Boo
         rw [hp] at hs
         obtain ⟨bc, hchild⟩ := ihc xc (force || opt) cpd (fileOf xc) hcc hw.2.1 hs.1 (fun _ _ => rfl)
         obtain ⟨b, hrest⟩ := ihr xr force pd F hr hw.2.2 hs.2 (agree_tail_sub _ F _ _ _ hw.1 ha)
-        exact ⟨b, by simp [parseSpec, hget, hp, hchild, hrest, Out.both, Out.map, Out.demote]⟩
+        exact ⟨bc && b, by simp [parseSpec, hget, hp, hchild, hrest, Out.both, Out.map, Out.demote]⟩
     · subst ho
       simp only [fileSafe, Bool.and_eq_true] at hs
       simp only [fileOf, Spec.names] at ha
